@@ -131,6 +131,22 @@ def run(res, tier, seed, driver_ok):
             lines.append('tm.op ' + line); expect.append((TM, TAA, k))
             if G.gt(np.max(np.abs(TM - base.gTM())), tol):
                 bad('ctor-form:%s' % name, 'copy constructor form %s changes the pose' % name, {'w': list(w), 'p': list(p)}, G.maxdiff(TM, base.gTM()))
+        # a pose built FROM another pose is its own pose: editing it afterwards must not change what the source means (in every use)
+        for nm_, mk_ in (('tm', lambda: tm(base)), ('arr_tm', lambda: tm(np.array([base], dtype=object))), ('copy', lambda: base.copy())):
+            try:
+                src_TM, src_TAA = base.gTM().copy(), base.gTAA().copy()
+                cpy = mk_()
+                cpy[0] = float(cpy[0]) + 1.0; cpy[4] = float(cpy[4]) + 0.3
+                Rf = tm([0.4, -0.3, 0.2, 0.2, 0.3, -0.1])
+                used = fsr.localToGlobal(Rf, base).gTM()
+                want_ = Rf.gTM() @ src_TM
+                ang_ = math.acos(max(-1.0, min(1.0, (np.trace(want_[:3, :3]) - 1) / 2)))
+                if not np.array_equal(base.gTM(), src_TM) or not np.array_equal(base.gTAA(), src_TAA) or (ang_ < math.pi - 0.1 and G.gt(np.max(np.abs(used - want_)), tol * 4)):
+                    bad('ctor-form-source-changed:%s' % nm_, 'editing a pose built from another pose (%s) changed what the source pose means' % nm_, {'w': list(w), 'p': list(p), 'form': nm_},
+                        {'six_vector_changed': not np.array_equal(base.gTAA(), src_TAA), 'matrix_changed': not np.array_equal(base.gTM(), src_TM)})
+                    base = tm(src_TM.copy())
+            except Exception as e:
+                bad('ctor-raises:%s:%s' % (nm_, type(e).__name__), 'editing a pose built by form %s raised %r' % (nm_, e), {'w': list(w), 'p': list(p)}, None)
         c = base.copy()
         before = c.gTM()
         c.setQuat(c.getQuat())
